@@ -98,7 +98,8 @@ def toOptExpr : Sexp → Option Expr
   | s => some (toExpr s)
 
 def toArg : Sexp → Option Arg
-  | .list [.atom "A", .atom n, a, b, c, d] => some ⟨xstr n, nat a, nat b, nat c, nat d⟩
+  | .list [.atom "A", .atom n, a, b, c, d] => some ⟨xstr n, nat a, nat b, nat c, nat d, false⟩
+  | .list [.atom "A", .atom n, a, b, c, d, .atom "1"] => some ⟨xstr n, nat a, nat b, nat c, nat d, true⟩
   | _ => none
 
 def toArgs : Sexp → Args
